@@ -5,28 +5,29 @@
    after the origin revalidated the cached response with 304, later hits carry the 304's headers (generation marker)
    and the unchanged body. *)
 EXTENDS Naturals, Integers, FiniteSets
-VARIABLES vers, contacted, reqs, merged
-cvars == <<vers, contacted, reqs, merged>>
+VARIABLES vers, contacted, reqs, merged, mergedMulti
+cvars == <<vers, contacted, reqs, merged, mergedMulti>>
 NoVal == 0 - 1
-CInit == vers = <<>> /\ contacted = {} /\ reqs = <<>> /\ merged = 0
+CInit == vers = <<>> /\ contacted = {} /\ reqs = <<>> /\ merged = 0 /\ mergedMulti = {}
 Ext(f, k, v) == [x \in DOMAIN f \cup {k} |-> IF x = k THEN v ELSE f[x]]
 Opaque(e) == IF e \in {1, 2} THEN 1 ELSE IF e = 3 THEN 3 ELSE 0
 WeakEq(a, b) == Opaque(a) # 0 /\ Opaque(a) = Opaque(b)
 StrongEq(a, b) == a \in {1, 3} /\ a = b
 \* inm: set of etag ids (may contain 4 = *); ims in {"none","lt","eq","gt"} relative to the Last-Modified all versions carry
-Req(id, inm, ims, ifm) == reqs' = Ext(reqs, id, [inm |-> inm, ims |-> ims, ifm |-> ifm]) /\ UNCHANGED <<vers, contacted, merged>>
-Fwd(id) == contacted' = contacted \cup {id} /\ UNCHANGED <<vers, reqs, merged>>
-OResp(v, status, etag, gen) ==
-  /\ IF status = 304 THEN merged' = gen /\ UNCHANGED vers
-     ELSE vers' = Ext(vers, v, [etag |-> etag]) /\ merged' = 0
+Req(id, inm, ims, ifm) == reqs' = Ext(reqs, id, [inm |-> inm, ims |-> ims, ifm |-> ifm]) /\ UNCHANGED <<vers, contacted, merged, mergedMulti>>
+Fwd(id) == contacted' = contacted \cup {id} /\ UNCHANGED <<vers, reqs, merged, mergedMulti>>
+\* multi: the values of a header field the response carries on several field lines (all must survive a 304 merge)
+OResp(v, status, etag, gen, multi) ==
+  /\ IF status = 304 THEN merged' = gen /\ mergedMulti' = multi /\ UNCHANGED vers
+     ELSE vers' = Ext(vers, v, [etag |-> etag]) /\ merged' = 0 /\ mergedMulti' = {}
   /\ UNCHANGED <<contacted, reqs>>
 Match304(r, m) == IF r.inm # {} THEN (4 \in r.inm \/ \E e \in r.inm : WeakEq(e, m.etag)) ELSE r.ims \in {"eq", "gt"}
 IfMatchOk(r, m) == r.ifm = 0 \/ r.ifm = 4 \/ StrongEq(r.ifm, m.etag)
-CResp(id, status, hv, bv, gen) ==
+CResp(id, status, hv, bv, gen, multi) ==
   LET r == reqs[id] IN
   /\ (status = 304 => \E w \in DOMAIN vers : Match304(r, vers[w]))
   /\ (status = 412 => r.ifm # 0)
   /\ ((id \notin contacted /\ status = 200 /\ hv \in DOMAIN vers) => IfMatchOk(r, vers[hv]))
-  /\ ((id \notin contacted /\ status = 200 /\ hv \in DOMAIN vers /\ merged # 0) => (gen = merged /\ bv \in {hv, NoVal}))
+  /\ ((id \notin contacted /\ status = 200 /\ hv \in DOMAIN vers /\ merged # 0) => (gen = merged /\ multi = mergedMulti /\ bv \in {hv, NoVal}))
   /\ UNCHANGED cvars
 ====
